@@ -672,7 +672,14 @@ def run(ctx):
     # ------------------------------------------------------------------
     def gen_rounding_ts(T):
         kind = rng.choice(["tenths", "tenths", "thirds", "sevenths", "random", "offset", "bigoffset",
-                           "cumsum"])
+                           "cumsum", "index", "f32"])
+        if kind == "index":
+            # no time stamps: int64 event indices, `ey + lag` is the first float operation
+            return None, kind
+        if kind == "f32":
+            # a float32 caller array (converted exactly by dtype='float'); steps of float32(0.1)
+            st = np.float32(rng.choice([0.1, 0.3, 1.0 / 3.0]))
+            return [float(np.float32(i) * st) for i in range(T)], kind
         if kind == "tenths":
             o = rng.choice([0.0, 0.0, 0.3, 100.0])
             return [o + 0.1 * i for i in range(T)], kind
@@ -712,21 +719,30 @@ def run(ctx):
             x = [int(v or rng.random() < 0.5) for v in x]
             y = [int(v or rng.random() < 0.5) for v in y]
         ts1, kind = gen_rounding_ts(T)
-        ts1 = ts1[:T]
-        if any(b <= a for a, b in zip(ts1, ts1[1:])):
-            continue
-        ts2 = ts1
-        if rng.random() < 0.15:
-            ts2, _k = gen_rounding_ts(T)
-            ts2 = ts2[:T]
-            if any(b <= a for a, b in zip(ts2, ts2[1:])):
-                ts2 = ts1
         tm, lag = rng.choice(R_TAUS), rng.choice(R_LAGS)
-        if kind == "bigoffset":
-            tm, lag = rng.choice([np.inf, 1.0, 2.5]), rng.choice([0.0, 0.7, -1.3, 2.0])
+        if kind == "index":
+            tm, lag = rng.choice([np.inf, 1.0, 1.5, 0.7]), rng.choice([0.1, -0.3, 1.0 / 3.0, 0.7, 1.1])
+            n1 = n2 = None
+            ts1 = ts2 = [float(i) for i in range(T)]
+        else:
+            ts1 = ts1[:T]
+            if any(b <= a for a, b in zip(ts1, ts1[1:])):
+                continue
+            ts2 = ts1
+            if rng.random() < 0.15 and kind != "f32":
+                ts2, _k = gen_rounding_ts(T)
+                ts2 = ts1 if ts2 is None else ts2[:T]
+                if any(b <= a for a, b in zip(ts2, ts2[1:])):
+                    ts2 = ts1
+            if kind == "bigoffset":
+                tm, lag = rng.choice([np.inf, 1.0, 2.5]), rng.choice([0.0, 0.7, -1.3, 2.0])
+            adt = np.float32 if kind == "f32" else float
+            n1, n2 = relayout(np.array(ts1, dtype=adt)), relayout(np.array(ts2, dtype=adt))
+            assert [float(v) for v in n1] == ts1
         ax, ay = np.array(x), np.array(y)
-        a1, a2 = relayout(np.array(ts1, dtype=float)), relayout(np.array(ts2, dtype=float))
-        r = call(lambda: ES.event_synchronization(ax, ay, ts1=a1, ts2=a2, taumax=tm, lag=lag))
+        # the arrays used for the exact rescaling / exchange relations are float64 copies
+        a1, a2 = np.array(ts1, dtype=float), np.array(ts2, dtype=float)
+        r = call(lambda: ES.event_synchronization(ax, ay, ts1=n1, ts2=n2, taumax=tm, lag=lag))
         req = (f"esfl {enc_rats(ts1)} {enc_bools(x)} {enc_rats(ts2)} {enc_bools(y)} "
                f"{enc_rat(tm)} {enc_rat(lag)}")
         got = "raise:" + type(r).__name__ if isinstance(r, Exception) else \
@@ -1212,7 +1228,11 @@ def check_climate_network(ctx, rng, quick):
     from pyunicorn.climate import EventSeriesClimateNetwork as ESCN
     from pyunicorn.eventseries import EventSeries
     base = ESCN.SmallTestData()
-    for c in range(8 if quick else 40):
+    # every thresholding argument pattern of the wrapper on every run (seed C16-8: the default of
+    # an omitted threshold_types matters only below the median) — a fixed prefix, then random draws
+    FIXED = [(None, 0.125), (None, 0.875), ("below", 0.25), ("above", 0.375), (None, 0.375),
+             ("below", 0.75), ("above", 0.625), (None, 0.5)]
+    for c in range(10 if quick else 40):
         method = rng.choice(["ES", "ECA"])
         s = rng.choice(SYMMS_ECA if method == "ECA" or rng.random() < 0.5 else SYMMS_ES)
         q = rng.choice([0.125, 0.25, 0.375, 0.5, 0.625, 0.75, 0.875])
@@ -1220,6 +1240,8 @@ def check_climate_network(ctx, rng, quick):
         # the wrapper must hand every thresholding argument on unchanged, also when
         # threshold_types is omitted (documented default rule: below the median -> 'below')
         ttypes = rng.choice(["above", "below", None, None])
+        if c < len(FIXED):
+            ttypes, q = FIXED[c]
         thr_kw = dict(threshold_method="quantile", threshold_values=q)
         if ttypes is not None:
             thr_kw["threshold_types"] = ttypes
